@@ -274,6 +274,7 @@ func browserSerialisable(o string) bool {
 }
 
 func (c02) Gen(r *R, tier string) any {
+	allowHugeOriginLists = true
 	observeUnknownAPI = false
 	p := &C02Plan{Cfg: genCfg(r)}
 	n := r.Range(1, 4)
